@@ -97,7 +97,8 @@ def truthy(v):
     if isinstance(v, VDict):
         if v.concrete:
             return z3.BoolVal(len(v.items) > 0)
-        raise Unsupported("truthiness of symbolic dict")
+        x = z3.Const("x!dictne", v.keysort)
+        return z3.Exists([x], z3.Select(v.present, x))
     if isinstance(v, VSet):
         if v.items is not None:
             return z3.BoolVal(len(v.items) > 0)
